@@ -58,3 +58,39 @@ def min_covers(points, prime_list):
         if sk:
             return k, {frozenset(prime_list[i] for i in s) for s in sk}
         k += 1
+
+
+def cyclic_core_size(points, prime_list):
+    """Points left after iterating essential-prime extraction and row /
+    column dominance (0 = the covering problem needs no branching)."""
+    bp = {b: frozenset(p for p in points if in_box(p, b)) for b in prime_list}
+    pts = set(points)
+    prs = set(prime_list)
+    changed = True
+    while changed and pts:
+        changed = False
+        for p in list(pts):
+            cov = [b for b in prs if p in bp[b]]
+            if len(cov) == 1:
+                b = cov[0]
+                pts -= bp[b]
+                prs.discard(b)
+                changed = True
+                break
+        if changed:
+            continue
+        for b in list(prs):
+            if any(c != b and (bp[b] & pts) <= (bp[c] & pts) for c in prs):
+                prs.discard(b)
+                changed = True
+                break
+        if changed:
+            continue
+        for q in list(pts):
+            cq = {b for b in prs if q in bp[b]}
+            if any(p != q and {b for b in prs if p in bp[b]} <= cq
+                   for p in pts):
+                pts.discard(q)
+                changed = True
+                break
+    return len(pts)
